@@ -767,5 +767,5 @@ func genSvc(t *rapid.T) SvcScript {
 
 func TestService(t *testing.T) {
 	cSvc.ReplayRepeat = 50
-	vt.Run(t, cSvc, vt.N(8000, 300000), genSvc, runSvc)
+	vt.Run(t, cSvc, vt.N(6000, 300000), genSvc, runSvc)
 }
